@@ -177,5 +177,8 @@ func (bc *bullyCoordinatorElector) setCoordinator(ID peer.ID) {
 }
 
 func (bc *bullyCoordinatorElector) getCoordinator() peer.ID {
+	bc.mu.RLock()
+	defer bc.mu.RUnlock()
+
 	return bc.coordinator
 }
